@@ -721,6 +721,8 @@ def classify(feat, dump_feat, py, cy):
     """stable class of a failing case, from the function's features first.  The known classes all have the
     shape 'CPython raises the unbound error here, the compiled code reads NULL or carries on'."""
     unbound = ("UnboundLocalError", "NameError")
+    if "retfinjump" in feat and cy[0] == "CRASH":
+        return "return_in_loop_overridden_by_finally_jump"
     if FX == "0" and ((py[0] in unbound) != (cy[0] in unbound) or
                       (py[0] in unbound and cy[0] in unbound and py[2] != cy[2])):
         # known defects of the CFG construction (refuted theorems C21_asis_*): only for functions that have the
@@ -831,9 +833,11 @@ def run(ctx):
     reps = 1 if quick else 6
     core_funcs = [(list(b), "fixed", ()) for b in K.FIXED_CORE]
     for rep in range(reps):
-        for j, w in combos:
-            body, doms = K.gen_core(rng, j, w, ("for", "while")[(rep + len(w) + len(j)) % 2],
-                                    fin_jump_prob=0.15 if rep % 2 == 0 else 0.0)
+        for ci, (j, w) in enumerate(combos):
+            body, doms = K.gen_core(rng, j, w, ("for", "while")[(rep + ci) % 2],
+                                    fin_jump_prob=0.15 if rep % 2 == 1 else 0.0,
+                                    contrast_prob=(1.0, 0.0, 0.6)[rep % 3],
+                                    shape="ABAC"[(ci + rep) % 4] if rep % 3 == 0 else None)
             core_funcs.append((body, j, w))
     ncm = 3 if quick else 16
     core_cap = 300 if quick else 1500
@@ -931,7 +935,9 @@ def run(ctx):
     rc = cybuild.call_cases(W, cy_cases, setup="import c21run", alarm=60)
     rp = cybuild.call_cases(W, py_cases, setup="import c21run", alarm=60)
     # a crash loses the whole function: re-run it one input at a time
-    retry = [(i, j) for i, r in enumerate(rc) if "e" in r for j in range(len(owners[i][1]["inputs"]))]
+    # (at most RETRY inputs: every crash costs a fresh interpreter)
+    RETRY = 24 if quick else 60
+    retry = [(i, j) for i, r in enumerate(rc) if "e" in r for j in range(min(RETRY, len(owners[i][1]["inputs"])))]
     rr = cybuild.call_cases(W, [["c21run.run_cy", [owners[i][0]["name"], owners[i][1]["name"],
                                                     [owners[i][1]["inputs"][j]]]] for i, j in retry],
                             setup="import c21run", alarm=20, max_crashes=400) if retry else []
@@ -945,7 +951,7 @@ def run(ctx):
             ctx.corr_break("oracle", {"module": m["name"], "func": f["name"]}, p, "CPython runs the source")
             continue
         pys = json.loads(eval(p["r"]))
-        cys = json.loads(eval(c["r"])) if "r" in c else [single[(i, j)] for j in range(len(f["inputs"]))]
+        cys = json.loads(eval(c["r"])) if "r" in c else [single[(i, j)] for j in range(min(RETRY, len(f["inputs"])))]
         dfe = dump_feat.get((m["name"], f["name"]), set())
         for inp, py, cy in zip(f["inputs"], pys, cys):
             unb = py[0] in ("UnboundLocalError", "NameError")
